@@ -58,8 +58,9 @@ var strTemplates = []strTemplate{
 var strLiterals = []string{
 	`"plain"`, `""`, `"tab\there"`, `"nl\nx"`, `"quote\"q"`, `"back\\slash"`, `"hex\x41\x7f"`, `"oct\101"`, `"ué世"`, `"U\U0001F600"`,
 	`"bell\a\b\f\r\v"`, `"single'quote"`, "`raw\\n\\t`", "`raw \"q\" 'c'`", "`multi\nline`", `"héllo"`, `"\xff\xfe"`,
+	`"\u00e9\u4e16"`, `"\377\200\177"`, `"\x80\xc3\x28"`, `"nul\x00mid"`, `"\000"`, "`cr\r\nlf`", "`back\\slash`", `"a\u0301"`, `"\U0010FFFF"`, `"\t\t"`, `"\'"`[:0] + `"q'q"`,
 }
-var charLiterals = []string{`'a'`, `'\''`, `'"'`, `'\\'`, `'\n'`, `'\t'`, `'\x41'`, `'\101'`, `'é'`, `'\U0001F600'`, `'é'`, `'世'`, `'\a'`, `'\r'`, `'0'`, `' '`, `'\000'`, `'\xff'`}
+var charLiterals = []string{`'\u00e9'`, `'\377'`, `'\x80'`, `'\U0010FFFF'`, `'\b'`, `'\f'`, `'\v'`, `'~'`, `'\x7f'`, `'a'`, `'\''`, `'"'`, `'\\'`, `'\n'`, `'\t'`, `'\x41'`, `'\101'`, `'é'`, `'\U0001F600'`, `'é'`, `'世'`, `'\a'`, `'\r'`, `'0'`, `' '`, `'\000'`, `'\xff'`}
 
 func genC13(tier string) []*Prog {
 	maxLen := 3
